@@ -105,6 +105,24 @@ INFO = {
  ('5','C13','m2'): ("ReplaySubject's live error handler no longer waits for the replay: replay() over a cold source that fails synchronously inside the first subscribe - the first subscriber gets only the error", []),
  ('5','C14','m1'): ("retry_when clears its (shared) predicate wrapper when it gives up: first subscription ends with a rejected error, the same value is subscribed again and hits an error the predicate accepts", []),
  ('5','C14','m2'): ("Subject keeps its serial write lock across the on_subscribe hook: ref_count() over a cold synchronous source plus a second subscription started during that run (from the first subscriber's callback: self-deadlock)", ['C07']),
+ ('6','C01','m1'): ("the item callback is released only after the terminal callback has returned: an item arrives during the terminal callback (re-entrantly or from another thread), subscriber directly on the source", ['C19']),
+ ('6','C01','m2'): ("terminal-versus-terminal exclusion is a check-then-act across two locks: two threads signal different terminals on the same subscriber at once", ['C19']),
+ ('6','C06','m1'): ("Observer::unsubscribe skips the teardown when the observer has already ended: retry / retry_when / on_error_resume_next directly over a multi-input operator, one input fails while a sibling is live, and the sibling tries to emit while the next attempt is being subscribed", ['C17']),
+ ('6','C06','m2'): ("StreamController::new_observer reads and writes back its serial under separate locks: two threads register an upstream on one controller at once (flat_map fed from two threads), then the stream ends - one inner source is never unsubscribed", ['C11']),
+ ('6','C07','m1'): ("amb no longer cancels a source at the moment it loses: the winner signals inside subscribe and stays open, a later input is an unbounded synchronous producer - subscribe never returns", ['C06']),
+ ('6','C07','m2'): ("AsyncFunctionQueue::stop takes abort before queue (AB-BA with the worker): abort from another thread exactly while the worker is between two queued functions", ['C08', 'C15']),
+ ('6','C11','m1'): ("sink_complete decrements the serial counter ('recycling'): flat_map with three inner streams - #0 and #1 start, #0 completes while #1 is live, #2 starts and collides with #1", ['C03']),
+ ('6','C11','m2'): ("zip force-completes when a finishing input's own queue is empty: another input's thread has popped the last tuple and is still delivering it", ['C03']),
+ ('6','C15','m1'): ("subscribe_on's posted task returns early for a stream that is already dead: the downstream observer dies while the inner stream is being set up (flat_map of subscribe_on, unsubscribe from inside the scheduler factory)", []),
+ ('6','C15','m2'): ("scheduling() resets the abort flag when it starts: the subscription ends from another thread between NewThreadScheduler::new() and the worker's first statement", ['C08']),
+ ('6','C16','m1'): ("timeout keeps the old timer armed while the next item is delivered: a slow consumer of item k+1 while the timer of item k is pending", []),
+ ('6','C16','m2'): ("interval waits with park_timeout instead of sleep and does not re-check the deadline: a pending unpark token or a spurious return makes a tick fire early", []),
+ ('6','C17','m1'): ("sequence_equal aborts the other upstream only when no input has completed: hot inputs of different length - the longer one's pipeline and items are never released", ['C06']),
+ ('6','C17','m2'): ("upstream_abort_observe returns early (after removing the entry) when the subscriber is gone: the subscriber's terminal callback emits into the still-subscribed loser / trigger", ['C06']),
+ ('6','C18','m1'): ("the error callback holds the err write guard across done=true and the waker read: a poll racing the failure takes the locks in the other order", []),
+ ('6','C18','m2'): ("poll builds its result from an err snapshot taken before it re-checks done: the failure lands entirely inside one poll", []),
+ ('6','C19','m1'): ("the terminal state only moves forward (complete < error): an error reaches the observer after a completion was accepted", ['C01']),
+ ('6','C19','m2'): ("the item path holds only a Weak to the terminated flag: terminal, then the other terminal closure is released, then a late item", ['C01']),
  ('3','C14','m2'): ("amb's winner cell hoisted out of the per-subscription closure: a second subscription in which a source in a different position signals first", []),
 }
 
@@ -121,16 +139,17 @@ def rows(path):
 
 def main():
     only = sys.argv[sys.argv.index('--round') + 1] if '--round' in sys.argv else None
-    results = {'1': {}, '2': {}, '3': {}, '4': {}, '5': {}}
+    results = {'1': {}, '2': {}, '3': {}, '4': {}, '5': {}, '6': {}}
     for p in ['/var/tmp/results1.tsv', os.path.join(S, '_incoming', 'RESULTS.tsv'), '/var/tmp/results2.tsv']:
         results['1'].update(rows(p))
     results['2'].update(rows(os.path.join(S, '_incoming2', 'RESULTS.tsv')))
     results['3'].update(rows(os.path.join(S, '_incoming3', 'RESULTS.tsv')))
     results['4'].update(rows(os.path.join(S, '_incoming4', 'RESULTS.tsv')))
     results['5'].update(rows(os.path.join(S, '_incoming5', 'RESULTS.tsv')))
+    results['6'].update(rows(os.path.join(S, '_incoming6', 'RESULTS.tsv')))
     dropped = []
     kept = []
-    for rnd, src in (('1', '_incoming'), ('2', '_incoming2'), ('3', '_incoming3'), ('4', '_incoming4'), ('5', '_incoming5')):
+    for rnd, src in (('1', '_incoming'), ('2', '_incoming2'), ('3', '_incoming3'), ('4', '_incoming4'), ('5', '_incoming5'), ('6', '_incoming6')):
         if only is not None and rnd != only:
             continue
         base = os.path.join(S, src)
@@ -146,7 +165,7 @@ def main():
                     continue
                 key = f'{prop}/{m}'
                 r = results[rnd].get(key)
-                # m1,m2 = round 1; m3,m4 = round 2; m5,m6 = round 3; m7,m8 = round 4; m9,m10 = round 5
+                # m1,m2 = round 1; m3,m4 = round 2; m5,m6 = round 3; m7,m8 = round 4; m9,m10 = round 5; m11,m12 = round 6
                 name = f'{prop}-m{int(m[1:]) + 2 * (int(rnd) - 1)}'
                 if r is None:
                     dropped.append((name, 'not re-confirmed yet'))
